@@ -375,6 +375,57 @@ fn run(ctx: &mut Ctx) {
             }
         }
     }
+    // an allocator that hands out blocks back to back (a kernel's early bump allocator): the source slice ends exactly
+    // where the new block begins, and a clone lies directly behind its original
+    ctx.bound("adjacent_blocks", "under a bump allocator without gaps: new_boxed from one heap-allocated source slice of 0..=40 bytes that ends (a) exactly at, (b) 1..7 bytes before the fresh allocation, then clone_dyn of the result (the clone directly behind the original); generic tag header and DummyDstTag");
+    for n in 0..=40usize {
+        for pad in [true, false] {
+            for which in 0..2 {
+                ctx.leaf(|| J::obj().set("part", "adjacent_blocks").set("content_len", n).set("source_ends_at_new_block", pad || n % 8 == 0).set("type", ["GenericTag", "DummyDstTag"][which]), |ctx| {
+                    ctx.state_direct();
+                    ctx.nontrivial();
+                    ledger::bump(true);
+                    let pre = if pad { (8 - n % 8) % 8 } else { 0 };
+                    let mut prefix: Vec<u8> = Vec::with_capacity(pre);
+                    prefix.resize(pre, 0xEE);
+                    let mut src: Vec<u8> = Vec::with_capacity(n);
+                    for i in 0..n {
+                        src.push(marker(i, 91));
+                    }
+                    let r = ctx.call("new_boxed + clone_dyn (adjacent blocks)", || {
+                        if which == 0 {
+                            let b = new_boxed::<DynSizedStructure<TagHeader>>(TagHeader::new(TagType::Custom(77), 0), &[&src]);
+                            let c = clone_dyn::<DynSizedStructure<TagHeader>>(&b);
+                            let (ab, ac) = (&*b as *const _ as *const u8 as usize, &*c as *const _ as *const u8 as usize);
+                            (ab, ac, unsafe { std::slice::from_raw_parts(ab as *const u8, 8 + n) }.to_vec(), unsafe { std::slice::from_raw_parts(ac as *const u8, 8 + n) }.to_vec())
+                        } else {
+                            let b = new_boxed::<DummyDstTag>(DummyTestHeader::new(42, 0), &[&src]);
+                            let c = clone_dyn::<DummyDstTag>(&b);
+                            let (ab, ac) = (&*b as *const _ as *const u8 as usize, &*c as *const _ as *const u8 as usize);
+                            (ab, ac, unsafe { std::slice::from_raw_parts(ab as *const u8, 8 + n) }.to_vec(), unsafe { std::slice::from_raw_parts(ac as *const u8, 8 + n) }.to_vec())
+                        }
+                    });
+                    let src_end = src.as_ptr() as usize + n;
+                    ledger::bump(false);
+                    match r {
+                        Out::Panic => ctx.violation("c16/adjacent/panic", || format!("new_boxed / clone_dyn panicked with a {}-byte source slice that ends {} the fresh allocation", n, if pad || n % 8 == 0 { "exactly at" } else { "a few bytes before" })),
+                        Out::Val((ab, ac, bb, cb)) => {
+                            ctx.ob("adjacent.gap", (ab.wrapping_sub(src_end)) as u64);
+                            ctx.ob("adjacent.clone_gap", (ac.wrapping_sub(ab)) as u64);
+                            if n > 0 && (pad || n % 8 == 0) && ab != src_end {
+                                ctx.machinery("bump allocator did not place the new block directly behind the source slice");
+                            }
+                            if bb[8..] != src[..] || rd32(&bb, 4) as usize != 8 + n || cb != bb {
+                                ctx.violation("c16/adjacent/bytes", || format!("{} content bytes: original {:02x?}, clone {:02x?}, source {:02x?}", n, bb, cb, src));
+                            } else {
+                                ctx.class("adjacent:ok");
+                            }
+                        }
+                    }
+                });
+            }
+        }
+    }
     ctx.bound("clone_dyn", "clone_dyn on every DST kind of both crates and DummyDstTag for content lengths 0..=24 (every padding residue), 255..=257, 4095..=4097, 65500..=65545 (every residue on both sides of a 64 KiB structure) and 2^20 - 12..=2^20 + 4");
     let mut clone_ns: Vec<usize> = (0..=24).collect();
     clone_ns.extend([255, 256, 257, 4095, 4096, 4097]);
